@@ -232,6 +232,7 @@ type phaseSpec struct {
 	PFault   int   // per cent
 	Seed     uint64
 	WalkKind string
+	WalkPart int // per cent of the walk order that is executed (0 = all)
 }
 
 type scenario struct {
@@ -423,7 +424,14 @@ func genScenario(r *vf.Run, stage, idx int) *scenario {
 		s.Phases = append(s.Phases, p)
 	}
 	fam := func() string { return faultFamilies[rng.Intn(len(faultFamilies))] }
+	// The first walk touches only a part of the chunks (holes remain: later spans become
+	// multi-range requests, and FetchedSize stays below the blob size so that over- and
+	// under-counting remain visible); the single-client faulty phase comes right after it:
+	// FetchedSize is compared with the cache after every operation, so a chunk that is
+	// counted although its commit failed is seen before a later successful fetch hides it.
 	addPhase("walk", "")
+	s.Phases[0].WalkPart = rng.Pick(25, 34, 50, 50, 67)
+	addPhase("solo", rng.PickS("truncate", "truncate", "cache-commiterr", "cache-commiterr", "cache-adderr", "neterr", "status", "cancel", "403", "mix"))
 	np := rng.Range(3, 6)
 	for i := 0; i < np; i++ {
 		kind := rng.PickS("herd", "herd", "mixed", "mixed", "mixed", "walk")
@@ -435,13 +443,6 @@ func genScenario(r *vf.Run, stage, idx int) *scenario {
 			}
 		}
 		addPhase(kind, family)
-	}
-	// one single-client faulty phase: FetchedSize is compared with the cache after every
-	// operation, so a chunk that is counted although its commit failed is seen before a
-	// later successful fetch of the same chunk hides it
-	addPhase("solo", rng.PickS("truncate", "truncate", "cache-commiterr", "cache-commiterr", "cache-adderr", "neterr", "status", "cancel", "403", "mix"))
-	if rng.Bool() {
-		addPhase(rng.PickS("mixed", "herd"), "")
 	}
 	addPhase("verify", "")
 	return s
@@ -812,6 +813,7 @@ type world struct {
 	okUnderFault   bool
 	sharedHerd     bool
 	cacheFault     bool
+	summaries      []string
 }
 
 func expectN(size, off int64, l int) int {
@@ -1237,6 +1239,7 @@ func min64(a, b int64) int64 {
 func normErr(s string) string {
 	s = reHex.ReplaceAllString(s, "#")
 	s = reNum.ReplaceAllString(s, "#")
+	s = reRegs.ReplaceAllString(s, "{..}") // a list of regions of any length
 	if len(s) > 90 {
 		s = s[:90]
 	}
@@ -1244,8 +1247,9 @@ func normErr(s string) string {
 }
 
 var (
-	reHex = regexp.MustCompile(`sha256:[0-9a-f]+|[0-9a-f]{16,}`)
-	reNum = regexp.MustCompile(`[0-9]+`)
+	reHex  = regexp.MustCompile(`sha256:[0-9a-f]+|[0-9a-f]{16,}`)
+	reNum  = regexp.MustCompile(`[0-9]+`)
+	reRegs = regexp.MustCompile(`(\{# #\}\s*)+`)
 )
 
 func runRange(r *vf.Run, stage, from, to int) {
@@ -1397,7 +1401,7 @@ func runScenario(r *vf.Run, sc *scenario) {
 		r.NonTrivial(sc.desc())
 	}
 	if sc.Idx < 4 {
-		r.Sample(map[string]any{"scenario": sc.desc()})
+		r.Sample(map[string]any{"scenario": sc.desc(), "phases_observed": w.summaries})
 	}
 }
 
@@ -1456,6 +1460,9 @@ func (w *world) runPhase(pi int) {
 		order := walkOrder(rng, ph.WalkKind, int(nch))
 		if len(order) > 48 {
 			order = order[:48]
+		}
+		if ph.WalkPart > 0 && len(order) > 2 {
+			order = order[:(len(order)*ph.WalkPart+99)/100]
 		}
 		for _, ci := range order {
 			sp := opSpec{Kind: opRead, Off: int64(ci) * sc.Chunk, N: sc.Chunk}
@@ -1701,6 +1708,20 @@ func (w *world) runPhase(pi int) {
 			}
 		}
 	}
+	nops, nerr := 0, 0
+	for g := range results {
+		for _, res := range results[g] {
+			nops++
+			if res.err != nil && res.err != io.EOF {
+				nerr++
+			}
+		}
+	}
+	if G == 1 {
+		r.Count("per_op_quiescent_checks", nops)
+	}
+	w.summaries = append(w.summaries, fmt.Sprintf("%s G=%d ops=%d errors=%d exact_reads=%d requests=%d data_gets=%d faults=%d cache_injected=%v fetched=%d->%d",
+		class, G, nops, nerr, okReads, len(reqs), dataGets, faults, st.Injected, fs0, w.blob.FetchedSize()))
 	if okReads > 0 && dataGets > 0 {
 		w.okFetchedRead = true
 		if faults > 0 {
